@@ -192,6 +192,15 @@ fn ark_part(ctx: &Ctx, rec: &mut Rec, zoo: &[SE]) {
     // from_random_bytes over the byte-string zoo and random strings
     let mut srng = rng_for(ctx.seed, P, 999, 1);
     let mut strings: Vec<(Vec<u8>, &'static str)> = crate::zoo::bytes_zoo(&c.f, &mut srng, 50);
+    // y coordinates for which an intermediate of "build the point and test it" is a structured value, with
+    // both values of the sign bit arkworks reads from the top of the last byte
+    for y in crate::eng::y_for_intermediates(ctx) {
+        let bytes = crate::model::to_le(&y, 32);
+        strings.push((bytes.clone(), "engineered-intermediate"));
+        let mut flagged = bytes;
+        flagged[31] |= 0x80;
+        strings.push((flagged, "engineered-intermediate"));
+    }
     for len in [31usize, 32, 33, 48, 64] {
         for _ in 0..ctx.scale(20_000, 400_000) {
             strings.push((rand_bytes(&mut srng, len), "random"));
@@ -470,6 +479,13 @@ fn ark_part(ctx: &Ctx, rec: &mut Rec, zoo: &[SE]) {
                 4 => { lam[rep % len] = f.neg(&b(1)); lam[(rep + 1) % len] = b(1); }                                                    // -1 and 1
                 5 => { let prod = lam[..len - 1].iter().fold(b(1), |a, x| f.mul(&a, x)); lam[len - 1] = f.neg(&f.inv(&prod).unwrap()); } // product = -1
                 _ => { let l0 = lam[0].clone(); lam[len - 1] = f.inv(&l0).unwrap(); }                                                  // first * last = 1
+            }
+            // ... and, every other batch, the same group element twice in a row in two different representations
+            // (other scaling, other coset member)
+            let mut pts = pts;
+            if rep % 2 == 0 {
+                let j = 1 + rep % (len - 1);
+                pts[j] = if rep % 4 == 0 { pts[j - 1].clone() } else { c.torque(&pts[j - 1]) };
             }
             let inputs: Vec<SE> = pts.iter().zip(lam.iter()).map(|(p, l)| SE { l: from_pt_scaled(c, p, l), m: p.clone(), class: "related-z" }).collect();
             let ls: Vec<El> = inputs.iter().map(|s| s.l).collect();
